@@ -1457,6 +1457,20 @@ func runC03() {
 			}
 		}
 	}
+	// two DIFFERENT environment types whose nested struct types print the same name ("main.Reading") and give the
+	// member Value different types: compiled one after the other in this process (a per-name memo of member types
+	// must not leak from one type to the other)
+	{
+		la, lb := c03LocalA(), c03LocalB()
+		wA := &c03World{name: "LocalA", sample: la, envT: reflect.TypeOf(la), envs: []interface{}{la}, twins: []interface{}{la}}
+		wB := &c03World{name: "LocalB", sample: lb, envT: reflect.TypeOf(lb), envs: []interface{}{lb}, twins: []interface{}{lb}}
+		probes := []string{"Last.Value * 2", `Last.Value + "!"`, "Last.Value > 1", "-Last.Value", "1..Last.Value", "Last.Unit", "Last.Unit + 1", `Last.Unit + "u"`, "N + Last.Value", "len(Last.Value)"}
+		for _, w := range []*c03World{wA, wB, wA} {
+			for _, s := range probes {
+				push(item{src: s, w: w, fam: "same-name types"})
+			}
+		}
+	}
 	nOrig := len(items)
 	for _, o := range originals {
 		for _, m := range c03Mutants(o.src) {
@@ -1547,7 +1561,9 @@ func runC03() {
 			}
 			// correspondence sample
 			if (isOrig && ((d == "" && (it.fam != "exhaustive family" || rng.Float64() < pOrig0)) || rng.Float64() < pOrig)) || (!isOrig && d == "" && rng.Float64() < pMut) {
-				addCase(it.src, baseOf[w.name], d, isOrig && di == 0 && rng.Intn(4) == 0)
+				if bi, ok := baseOf[w.name]; ok {
+					addCase(it.src, bi, d, isOrig && di == 0 && rng.Intn(4) == 0)
+				}
 			}
 			prog, compErr := c03SafeCompile(it.src, c03Options(w, d))
 			if panicked || (compErr != nil && strings.HasPrefix(compErr.Error(), "panic:")) {
@@ -1689,4 +1705,29 @@ func runC03() {
 	hdr.WriteString("Definition bases : list cconfig := [\n  " + strings.Join(baseTerms, ";\n  ") + "\n].\n")
 	rep.writeShards("cases_c03", hdr.String(), "c03case", "c03_mismatches bases", cases)
 	rep.write()
+}
+
+// two environment types with a nested struct type of the SAME printed name and different member types
+func c03LocalA() interface{} {
+	type Reading struct {
+		Value int
+		Unit  string
+	}
+	type EnvL struct {
+		Last Reading
+		N    int
+	}
+	return EnvL{Last: Reading{Value: 7, Unit: "c"}, N: 1}
+}
+
+func c03LocalB() interface{} {
+	type Reading struct {
+		Value string
+		Unit  int
+	}
+	type EnvL struct {
+		Last Reading
+		N    int
+	}
+	return EnvL{Last: Reading{Value: "seven", Unit: 3}, N: 1}
 }
